@@ -100,6 +100,21 @@ func registerBig(reg func(string, intrinsic)) {
 		divz(in, y)
 		return in.st.ISub(x, in.st.IMul(y, in.iquo(x, y)))
 	})
+	reg("(*math/big.Int).DivMod", func(in *Interp, fn *ssa.Function, a []Value) Value {
+		x, y := in.bigVal(a[1]), in.bigVal(a[2])
+		divz(in, y)
+		q, m := in.st.IDiv(x, y), in.st.IMod(x, y)
+		in.bigSet(a[3], m)
+		return in.bigSet(a[0], q)
+	})
+	reg("(*math/big.Int).QuoRem", func(in *Interp, fn *ssa.Function, a []Value) Value {
+		x, y := in.bigVal(a[1]), in.bigVal(a[2])
+		divz(in, y)
+		q := in.iquo(x, y)
+		r := in.st.ISub(x, in.st.IMul(y, q))
+		in.bigSet(a[3], r)
+		return in.bigSet(a[0], q)
+	})
 	reg("(*math/big.Int).Set", func(in *Interp, fn *ssa.Function, a []Value) Value {
 		return in.bigSet(a[0], in.bigVal(a[1]))
 	})
